@@ -1549,6 +1549,7 @@ class _Ctx:
             # functools.reduce(f, xs, init) is the loop `acc = init; for x in xs: acc = f(acc, x)`
             it_ = _iterable(args[1])
             step_ = self.call_value(args[0], [args[2], mk_elem(it_)], {})
+            it_ = norm_it(it_)  # a fold over [g(x) for x in xs] is a fold over xs (the element above is already g(x))
             if is_t(step_, "bin") and step_[1] in ("+", "|") and step_[2] == args[2] and not contains(step_[3], args[2]):
                 return ("bin", step_[1], args[2], ("sumover", it_, step_[3]))  # the accumulation `acc op= g(x)`, as the for-loop spelling gives it
             return ("loop", it_, args[2], step_)
